@@ -187,3 +187,6 @@ package state
 //@   option trusted
 //@   modifies nothing
 //@   ensures derived: result1 == nil ==> result0 != nil
+
+//@ func Session.SetTunMTU
+//@   modifies s.mtu.v
